@@ -1316,6 +1316,13 @@ def bohr_factor_default():
     return qcel.constants.conversion_factor("Angstrom", "Bohr")
 
 
+def _same_value(a, b) -> bool:
+    if isinstance(a, np.ndarray) or isinstance(b, np.ndarray):
+        a_, b_ = np.asarray(a), np.asarray(b)
+        return a_.shape == b_.shape and a_.dtype == b_.dtype and a_.tobytes() == b_.tobytes()
+    return type(a) is type(b) and a == b
+
+
 def check_toschema(ctx, out: Outcome, recs):
     """recs: list of (case_kwargs, molrec).  Compares to_schema(rec, v, np_out) with the model, evaluates the oracle."""
     import qcelemental as qcel
@@ -1338,9 +1345,24 @@ def check_toschema(ctx, out: Outcome, recs):
             out.evaluations += 1
             out.count(f"to_schema:v{v}:np_out={np_out}:{rec['units']}:{'iutau' if 'input_units_to_au' in rec else 'default'}")
             out.nontrivial(("molrec", v, np_out, rec["units"], "input_units_to_au" in rec, len(rec["fragment_separators"]), len(rec["elem"]), "connectivity" in rec, "fix_symmetry" in rec))
+            # the documented zero-copy option on every other case: the caller's record must come out of the export as it went in
+            # (a second export of the same record is then the same schema), and the export itself must not depend on the option
+            zero_copy = (len(rec["elem"]) + v + int(np_out)) % 2 == 0
+            work = copy.deepcopy(rec)
+            case["copy"] = not zero_copy
             try:
                 with contextlib.redirect_stdout(io.StringIO()):
-                    sd = to_schema(copy.deepcopy(rec), dtype=v, np_out=np_out)
+                    sd = to_schema(work, dtype=v, np_out=np_out, copy=not zero_copy)
+                    snap_geom = np.array(sd["molecule"]["geometry"] if v == 1 else sd["geometry"], dtype=float).copy()
+                    changed = [k for k in rec if not _same_value(rec[k], work.get(k))] + [k for k in work if k not in rec]
+                    if changed:
+                        out.violations.append(Finding("oracle:to_schema_record_modified", case, observed={k: repr(work.get(k))[:120] for k in changed[:3]},
+                                                      expected={k: repr(rec.get(k))[:120] for k in changed[:3]}, detail=f"to_schema(copy={not zero_copy}) changed the molecule record it was given"))
+                    sd_again = to_schema(work, dtype=v, np_out=np_out)
+                    g2 = np.array(sd_again["molecule"]["geometry"] if v == 1 else sd_again["geometry"], dtype=float)
+                    if g2.shape != snap_geom.shape or not np.array_equal(g2, snap_geom):
+                        out.violations.append(Finding("oracle:to_schema_second_export", case, observed=g2.ravel().tolist()[:9], expected=snap_geom.ravel().tolist()[:9],
+                                                      detail="exporting the same validated record a second time gives another geometry"))
             except Exception as e:
                 out.violations.append(Finding("oracle:to_schema_raises", case, observed=err_class(e) + ": " + str(e)[:200], detail="to_schema raised on a validated molrec"))
                 continue
